@@ -4,12 +4,17 @@
 package main
 
 import (
+	"bytes"
+	"encoding/json"
 	"flag"
 	"fmt"
 	"io"
 	"log"
 	"os"
+	"os/exec"
+	"path/filepath"
 	"strconv"
+	"strings"
 )
 
 type env struct {
@@ -40,6 +45,48 @@ func main() {
 	if !ok {
 		fmt.Fprintln(os.Stderr, "unknown command", cmd)
 		os.Exit(2)
+	}
+	// The code under test runs in a child process: if it crashes the process (an unrecovered
+	// panic in one of rend's goroutines, a runtime fatal error) that is an observation about
+	// rend, reported as a violation, not a failure of the harness.
+	if os.Getenv("VERIF_CHILD") == "" && cmd != "constgen" {
+		exe, _ := os.Executable()
+		c := exec.Command(exe, os.Args[1:]...)
+		c.Env = append(os.Environ(), "VERIF_CHILD=1")
+		c.Stdout = os.Stdout
+		var errb bytes.Buffer
+		c.Stderr = &errb
+		err := c.Run()
+		os.Stderr.Write(errb.Bytes())
+		if err == nil {
+			return
+		}
+		es := errb.String()
+		crashed := strings.Contains(es, "panic:") || strings.Contains(es, "fatal error:") || strings.Contains(es, "SIGSEGV")
+		if !crashed || !strings.Contains(es, "github.com/netflix/rend/") {
+			if ee, ok := err.(*exec.ExitError); ok {
+				os.Exit(ee.ExitCode())
+			}
+			os.Exit(3)
+		}
+		if len(es) > 4000 {
+			es = es[:1500] + "\n...\n" + es[len(es)-2500:]
+		}
+		res := map[string]interface{}{"property": strings.ToUpper(cmd), "tier": *tier, "seed": s, "cases": []interface{}{}, "distinct_nontrivial": 0,
+			"stats": map[string]interface{}{}, "rule": "the process running rend's code crashed before the run completed",
+			"go_failures": []map[string]interface{}{{"kind": "counterexample", "what": "the process running rend's code crashed (unrecovered panic / runtime fatal error in repository code)",
+				"input": map[string]interface{}{"cmd": cmd, "tier": *tier, "seed": s}, "detail": es}}}
+		b, _ := json.MarshalIndent(res, "", " ")
+		os.MkdirAll(*out, 0o755)
+		// remove partial case files of the crashed child
+		if ms, _ := filepath.Glob(filepath.Join(*out, "cases*.v")); ms != nil {
+			for _, m := range ms {
+				os.Remove(m)
+			}
+		}
+		os.WriteFile(filepath.Join(*out, "result.json"), b, 0o644)
+		os.WriteFile(filepath.Join(*out, "cases.v"), []byte("Definition bad : list (nat * nat) := nil.\nPrint bad.\n"), 0o644)
+		return
 	}
 	f(&env{tier: *tier, seed: s, out: *out, args: fs.Args()})
 }
